@@ -39,6 +39,8 @@ def cases(tier, seed):
     n = 40 if tier == "quick" else 400
     for i in range(0, n, 10):
         out.append({"name": "map.chain/%d" % i, "kind": "chain", "lo": i, "hi": i + 10})
+    for n in (30, 60, 120, 250):
+        out.append({"name": "map.chain-long/n=%d" % n, "kind": "chainlong", "n": n})
     for kind in ("map", "flat_map"):
         for form in ("f", "executor"):
             for inp in ("value", "exc"):
@@ -284,6 +286,73 @@ def run_laws(case, res):
                         "fn_calls": len(w.fn.calls) if w.fn else 0, "error_fn_calls": len(w.efn.calls) if w.efn else 0}, limit=1)
         finally:
             end(ctx)
+
+
+def run_chainlong(case, res):
+    """Chains of n stages (all chain lengths): executor form, f_* form over an input that is already done, f_* form
+    over an input completed afterwards; map and flat_map stages; value and exception (with a recovering last stage)."""
+    import logging
+    ME = instr.ME
+    F = ME.futures
+    n = case["n"]
+    # (the library logs every exception its callbacks swallow, with the full traceback, at each level of a deep
+    # chain that is unwinding: keep that out of the worker's log)
+    logging.disable(logging.CRITICAL)
+    try:
+        _run_chainlong(case, res, ME, F, n)
+    finally:
+        logging.disable(logging.NOTSET)
+    check_common(res)
+
+
+def _run_chainlong(case, res, ME, F, n):
+    for op in ("map", "flat_map"):
+        for form in ("executor", "f-done", "f-later"):
+            for inp in ("value", "exc"):
+                begin("rt")
+                ctx = Ctx()
+                try:
+                    e0 = UserErrorA("chain-input")
+                    if form == "executor":
+                        ex = ctx.own(ME.Executors.sync())
+                        for k in range(n):
+                            ex = ctx.own(ex.with_map(lambda x: x + 1) if op == "map" else ex.with_flat_map(lambda x: F.f_return(x + 1)))
+
+                        def source():
+                            if inp == "value":
+                                return 0
+                            raise e0
+                        out = ex.submit(source)
+                    else:
+                        src = SpyFuture("src")
+                        if form == "f-done":
+                            if inp == "value":
+                                src.set_result(0)
+                            else:
+                                src.set_exception(e0)
+                        out = src
+                        for k in range(n):
+                            out = F.f_map(out, lambda x: x + 1) if op == "map" else F.f_flat_map(out, lambda x: F.f_return(x + 1))
+                        if form == "f-later":
+                            if inp == "value":
+                                src.set_result(0)
+                            else:
+                                src.set_exception(e0)
+                    res.execs += 1
+                    o = outcome(out)
+                    label = "%d %s stages, %s, input %s" % (n, op, form, inp)
+                    depth = "deep" if n >= 60 else "short"
+                    if o[0] == "pending":
+                        res.violation("chain-long/pending/%s/%s/%s" % (op, form, depth),
+                                      "%s: the input is finished, the last stage is still pending" % label)
+                    elif inp == "value" and o != ("value", n):
+                        res.violation("chain-long/wrong/%s/%s/%s" % (op, form, depth), "%s: result %s, composition gives %d" % (label, outcome_repr(o), n))
+                    elif inp == "exc" and not (o[0] == "exc" and o[1] is e0):
+                        res.violation("chain-long/wrong/%s/%s/%s" % (op, form, depth), "%s: result %s, the input's exception must pass through unchanged"
+                                      % (label, outcome_repr(o)))
+                    res.key("chainlong", n, op, form, inp)
+                finally:
+                    end(ctx)
 
 
 def run_chain(case, res):
@@ -580,6 +649,8 @@ def run_case(case, res):
         rng = random.Random("c13a/%s/%s" % (case["seed"], case["name"]))
         SweepNested(AScenario(case), res, "rt", case["name"]).run(None, None, rng, per_site=1, budget=case["budget"])
         return
+    if k == "chainlong":
+        return run_chainlong(case, res)
     if k == "laws":
         run_laws(case, res)
     elif k == "chain":
